@@ -407,6 +407,8 @@ def prebuild(ctx):
     text, _ = c14_clients.gen_coq()
     (COQ / "C14" / "GenRangeClients.v").write_text(text)
     ctx.coq_build_cached(["C14/GenRangeClients.v", "C14/RangeClients.v", "C14/RangeRefine.v", "C14/PropsClients.v"], deps=RANGE_PRE, timeout=900)
+    from vlib import c14_pass
+    c14_pass.prebuild(ctx)
 
 
 # ---------------------------------------------------------------- range-based check removal (clients of the range kernel)
@@ -713,7 +715,10 @@ def run(ctx):
     total += part_clients(ctx)
     ctx.log(f"range clients {time.time()-t:.0f}s"); t = time.time()
     total += part_memloc(ctx)
-    ctx.log(f"memloc {time.time()-t:.0f}s")
+    ctx.log(f"memloc {time.time()-t:.0f}s"); t = time.time()
+    from vlib import c14_pass
+    total += c14_pass.part_passes(ctx)
+    ctx.log(f"passes {time.time()-t:.0f}s")
     ctx.corr.setdefault("evaluations", 0)
     ctx.corr["evaluations"] += total
     ctx.corr["distinct_nontrivial"] = total
